@@ -86,7 +86,7 @@ func genStages() []logql.PipelineStage {
 		out = append(out, &logql.LineFilter{Op: op, Value: "10.0.0.1", IP: true}, &logql.LineFilter{Op: op, Value: "192.168.0.0/16", IP: true})
 	}
 	for _, op := range []logql.BinOp{logql.OpRe, logql.OpNotRe} {
-		for _, v := range []string{"err.*", `(?i)warn|\d+`, ""} {
+		for _, v := range []string{"err.*", `(?i)warn|\d+`, "", "x.*", "y|z"} {
 			out = append(out, &logql.LineFilter{Op: op, Value: v, Re: regexp.MustCompile(v)})
 		}
 	}
@@ -120,10 +120,10 @@ func f64(v float64) *float64 { return &v }
 func i32(v int) *int         { return &v }
 
 type rangeVariant struct {
-	op      logql.RangeOp
-	unwrap  bool
-	param   *float64
-	canGrp  bool
+	op     logql.RangeOp
+	unwrap bool
+	param  *float64
+	canGrp bool
 }
 
 var rangeVariants = []rangeVariant{
@@ -338,9 +338,9 @@ func corpus(thorough bool) []logql.Expr {
 // ---- the check ------------------------------------------------------------------------------
 
 type c05Input struct {
-	Index     int    `json:"index"`  // index into the corpus of the tier
+	Index     int    `json:"index"` // index into the corpus of the tier
 	Tier      string `json:"tier"`
-	Style     int    `json:"style"`  // layout
+	Style     int    `json:"style"` // layout
 	Redundant bool   `json:"redundant"`
 	RangeLast bool   `json:"range_last"`
 	PrefixGrp bool   `json:"prefix_grouping"`
@@ -421,6 +421,9 @@ var c05Static = []string{
 	`stddev(1, rate({a="b"}[5m]))`,
 	`stdvar(1, rate({a="b"}[5m]))`,
 	`sum by (a b) (rate({a="b"}[5m]))`,
+	`sum by (a) (rate({a="b"}[5m])) by (b)`,
+	`topk by (a) (2, rate({a="b"}[5m])) without (b)`,
+	`avg_over_time({a="b"} | unwrap v [5m]) by (a) by (b)`,
 	`sum(rate({a="b"}[5m])) without (a b)`,
 	`rate({a="b"}[5m]) + on (a b) rate({a="b"}[5m])`,
 	`rate({a="b"}[5m]) + ignoring (a) group_left (b c) rate({a="b"}[5m])`,
